@@ -56,6 +56,11 @@ func (ald AuthzLimiterDecorator) checkDisabledMsgs(msgs []sdk.Msg, isAuthzInnerM
 				return err
 			}
 		case *authz.MsgGrant:
+			// a grant issued in somebody else's name is itself an inner message
+			if grantURL := sdk.MsgTypeURL(msg); isAuthzInnerMsg && ald.isDisabledMsg(grantURL) {
+				return fmt.Errorf("found disabled msg type: %s", grantURL)
+			}
+
 			authorization, err := msg.GetAuthorization()
 			if err != nil {
 				return err
